@@ -393,7 +393,9 @@ def run(ctx, sm, facts):
     ctx.rule('C11.c', 'duplicate wire raises before the store; sole writer of _wires; constructors and rename/reparent go through appendWire')
     ctx.rule('C11.d', 'checkIntegrity raises iff source is None, for both port lists, all ports, all children')
     ctx.rule('C11.f', 'rejection / acceptance clauses evaluated on elaborated construction sequences (double driver, duplicate child / wire, rename / reparent, integrity check on library blocks and single-fault variants)')
-    res = check_f(ctx, facts)
+    from ..facts import Facts
+    from .c02 import overlay_source, CASES_REL
+    res = check_f(ctx, Facts(sm.with_overlay({CASES_REL: overlay_source()})))      # + synthetic user classes (a leaf inheriting propagate())
     # the shape rules below report only what they can read; when a registration function was rewritten into a shape they do not
     # recognise, the scenario results above decide the clause instead (no alarm on a behaviour-preserving rewrite)
     before = len(ctx.violations), len(ctx.errors)
@@ -599,6 +601,68 @@ def scenarios(ctx, facts, tier):
         except (ElabRaise, PyExc):
             return None
 
+    def s_duplicate_child_empty(first_kind):
+        # the earlier child has nothing attached yet (a grouping block, a block whose ports are added later): it is a child like any other
+        def f():
+            D = Design(facts)
+            first = D.make('Logic', 'x')
+            a, r = D.wire('a'), D.wire('r')
+            second = (lambda: D.make('Logic', 'x')) if first_kind == 'empty' else (lambda: D.make('Buf', 'x', a, r))
+            if not raises(D, second):
+                return 'a second child named x was accepted because the earlier child x has no ports, children or wires yet'
+            if D.sys.attrs['children'].get('x') is not first:
+                return 'the earlier (still empty) child x did not stay in place'
+            return None
+        return f
+
+    def s_fault_structural_port():
+        # the undriven wire is attached only to a port of an intermediate structural block (an unused input of a sub-block): no leaf reads it
+        D = Design(facts)
+        a, r, u = D.wire('a', 2), D.wire('r', 2), D.wire('u', 2)
+        D.make('Constant', 'ka', 1, a)
+        sub = D.make('Logic', 'sub')
+        for nm, w, meth in (('a', a, 'addIn'), ('u', u, 'addIn'), ('r', r, 'addOut')):
+            D.el.call(D.el.getattr_(sub, meth), [nm, w], {}, {})
+        D.el.instantiate(D.el.find_class('Buf'), [sub, 'inner', a, r], {})
+        D.make('Buf', 'reader', r, D.wire('r2', 2))
+        try:
+            integrity(D, D.sys)
+            return 'a hierarchy in which an input port of a structural sub-block is attached to a wire nobody drives is accepted'
+        except (ElabRaise, PyExc):
+            return None
+
+    def s_inheriting_leaf():
+        # a leaf whose propagate() is inherited from a library block is a primitive driver like its base class
+        if D_has('HvInvChild') is None:
+            raise ElabError('synthetic class HvInvChild not available')
+        D = Design(facts)
+        a, b, r = D.wire('a'), D.wire('b'), D.wire('r')
+        D.make('Constant', 'ka', 1, a)
+        D.make('Constant', 'kb', 1, b)
+        first = D.make('HvInvChild', 'n1', a, r)
+        src = r.attrs.get('source')
+        if src is None:
+            return 'the output port of a leaf that inherits propagate() is not registered as the driver of its wire'
+        if not raises(D, lambda: D.make('Buf', 'b2', b, r)):
+            return 'a second driver was accepted on a wire driven by a leaf that inherits propagate()'
+        D2 = Design(facts)
+        a2, r2 = D2.wire('a'), D2.wire('r')
+        D2.make('Constant', 'ka', 1, a2)
+        D2.make('HvInvChild', 'n1', a2, r2)
+        D2.make('Buf', 'reader', r2, D2.wire('r2'))
+        try:
+            integrity(D2, D2.sys)
+        except (ElabRaise, PyExc) as e:
+            return 'a fully driven circuit with a leaf that inherits propagate() is rejected by the integrity check: %s' % str(e)[:80]
+        return None
+
+    def D_has(cname):
+        return Design(facts).el.find_class(cname)
+
+    attempt('duplicate child name, earlier child still empty (second empty too)', s_duplicate_child_empty('empty'))
+    attempt('duplicate child name, earlier child still empty (second a library block)', s_duplicate_child_empty('block'))
+    attempt('integrity: undriven wire on a port of an intermediate structural block only', s_fault_structural_port)
+    attempt('leaf that inherits propagate(): registered driver, second driver refused, integrity accepts', s_inheriting_leaf)
     attempt('integrity: undriven wire in a later replica with repeated names', s_fault_replica)
     attempt('second driver from another block', s_double_driver)
     attempt('second driver from the same block', s_double_driver_same_block)
